@@ -51,6 +51,14 @@ pub trait Prop: Sync + Send {
     fn assumptions(&self) -> Vec<String> {
         vec![]
     }
+    /// wall-clock cap of one run in seconds (first attempt; the single retry gets 4x)
+    fn run_cap_secs(&self, tier: Tier) -> u64 {
+        if tier == Tier::Quick {
+            30
+        } else {
+            120
+        }
+    }
     /// probes that must be non-zero in the thorough tier (generator reach self-test)
     fn required_probes(&self, _tier: Tier) -> Vec<&'static str> {
         vec![]
@@ -309,7 +317,10 @@ impl<'a> Harness<'a> {
             // acceptance environment) although the same run takes milliseconds — only a run that stalls
             // twice in a row is reported (a genuine hang is deterministic and will).
             self.stats.probe("stalled_run_retried");
-            outs = exec_scenario(self.ctx, &self.wd, scn, &model.built)?;
+            self.ctx.retry_mode.store(true, Ordering::Relaxed);
+            let again = exec_scenario(self.ctx, &self.wd, scn, &model.built);
+            self.ctx.retry_mode.store(false, Ordering::Relaxed);
+            outs = again?;
         }
         for (ri, (r, o)) in scn.runs.iter().zip(outs.iter()).enumerate() {
             account_trace(&mut self.stats, r, o);
@@ -446,11 +457,12 @@ pub fn run_check(prop: &dyn Prop, env: &CheckEnv) -> i32 {
     let ctx = ExecCtx {
         sut: env.sut.clone(),
         scratch: env.scratch.clone(),
-        timeout: Duration::from_secs(120),
+        timeout: Duration::from_secs(prop.run_cap_secs(env.tier)),
         runs_done: AtomicU64::new(0),
         events_seen: AtomicU64::new(0),
         run_ns: AtomicU64::new(0),
         abort: std::sync::atomic::AtomicBool::new(false),
+        retry_mode: std::sync::atomic::AtomicBool::new(false),
     };
     let mut n_items = prop.items(env.tier);
     if let Some(l) = std::env::var("RBPSIM_ITEM_LIMIT").ok().and_then(|x| x.parse::<u64>().ok()) {
@@ -670,6 +682,7 @@ pub fn replay(prop: &dyn Prop, sut: &Path, scratch: &Path, scn: &Scenario) -> i3
         events_seen: AtomicU64::new(0),
         run_ns: AtomicU64::new(0),
         abort: std::sync::atomic::AtomicBool::new(false),
+        retry_mode: std::sync::atomic::AtomicBool::new(false),
     };
     let wd = Workdir::new(&ctx, 0);
     let model = Model::new(scn);
